@@ -25,6 +25,10 @@ CLAIMS = {
   text="PARTIAL. Lean theorems about a model of crates/lib/src/main.rs: flags→Options mapping (C20_optionsOf_spec incl. both negated flags and load-path order, _optionsOf_default, _unnegated_variant_differs), command-line reading (C20_parse_render, _input_required), and the outcome function (C20_err_exit_nonzero_no_stdout, _ok_exit_zero_css_to_sink, _warnings_not_in_css, _unopenable_output, _input_kind_irrelevant). The mirror/exit/stream claims for the real binary are established by the tie: the binary is rebuilt from /repo and run on hand-written, generated and corpus inputs × flag combinations × {file, --stdin} × {stdout, new/existing/unopenable output file}; (exit, stdout, stderr, file) must equal outcome(flags, library result under optionsOf flags) byte for byte, where the library result comes from the in-process runner; the agreement predicate is evaluated by the Lean driver; the clap argument table of main.rs is compared statically with the table the model was written from.",
   note="clap's own parsing beyond the documented flags and OS process behaviour (signals, closed pipes, permissions) are outside the model. Known finding C20-stdin-output (`grass --stdin out.css` treats the positional as INPUT). The output file is truncated before compiling (modelled as found; not contradicted by the property text).",
   technique="Lean 4 proof about a model of main.rs; tie by running the freshly built binary against the in-process library with byte-exact comparison + static clap-table comparison"),
+ "C16": dict(
+  text="Lean theorems about a model of calculation.rs / sass_number.rs / the calculation printer: simplification (operate_internal incl. sign flip, min/max/clamp reduction, calc, unit conversion and cancellation) preserves the denoted quantity under EVERY unit environment (C16_compile_value for the whole pipeline, C16_operate_value, C16_sign_flip_sound, C16_min_max_value, C16_clamp_value), print-then-parse preserves it for every well-formed tree so parenthesisation and precedence are right (C16_print_parse_value, by induction over the tree, with C16_parse_fuel_sufficient), fully-known-unit inputs reduce to the plain number (C16_known_units_plain_number), provably incompatible operands are rejected (C16_incompatible_rejected, C16_operate_rejects_incompatible) and no conversion is unguarded / the pipeline never panics (C16_never_unguarded_convert, C16_never_panics). Tie: generated expressions up to depth 4 with nested calc/min/max/clamp, var(), interpolation and Sass variables; grass's printed value is read by the proved Lean reader and compared structurally with the model, and source vs grass output are evaluated by the Lean evaluator under 6 exact-rational unit environments; the Lean factor table is also compared with unit/conversion.rs.",
+  note="Guards: well-formed environment, no legacy min/max unitless coercion, specified clamp. The code deviates in D40 (clamp with MAX < MIN < VAL) and D41 (unitless + length accepted) — known findings with kernel-checked witnesses C16_asFound_*; f64 arithmetic (checked by error bound), rad/grad, interpolation re-interpretation and non-finite values are outside the model.",
+  technique="Lean 4 proof over an executable model + correspondence run (proved Lean reader on grass output, exact-rational evaluation under random unit environments, table tie to conversion.rs)"),
  "C09": dict(
   text="Lean theorems about an executable model of Value::eq / not_equals / SassMap / map literals / index(): == is reflexive (NaN-free), symmetric and transitive, != is its negation, map-get/has-key/remove/merge/literals and index() find an entry exactly when a key/element == the probe, maps keep first-insertion order and the distinct-key invariant — for every variant with canonical-unit comparison: on all values for the specified variant, on argument-list-free values with canonical convertible units for the code as it stands (the `_now_partial` theorems; the unguarded statement is refuted, C09_full_refuted). Tie: all ordered pairs of a ~120-value universe, all triples through grass's own == matrix, triples evaluated by grass, random map-operation sequences; the laws are evaluated by the Lean driver on grass's answers.",
   note="Exact rationals instead of f64 (universe kept away from bucket boundaries); complex units, calculations, function references outside the model. Known findings (same-unit vs canonical scale, arglist brackets/keywords, map-remove via not_equals) are modelled by switches and replayed every run.",
